@@ -53,6 +53,23 @@ fn model(script: &str, data: &[u8]) -> Option<Vec<String>> {
                     pos = if e < data.len() { e + 1 } else { e };
                 }
             }
+            'A' => {
+                // read_lines: every remaining line
+                let mut v = Vec::new();
+                while pos < data.len() {
+                    let mut e = pos;
+                    while e < data.len() && data[e] != b'\n' {
+                        e += 1;
+                    }
+                    let mut line = &data[pos..e];
+                    if e < data.len() && line.last() == Some(&b'\r') {
+                        line = &line[..line.len() - 1];
+                    }
+                    v.push(String::from_utf8_lossy(line).to_string());
+                    pos = if e < data.len() { e + 1 } else { e };
+                }
+                out.push(format!("{:?}", v));
+            }
             'E' => {
                 while pos < data.len() && is_ws(data[pos]) {
                     pos += 1;
@@ -104,6 +121,7 @@ fn real(script: &str, data: &[u8], sched: &[Option<usize>]) -> Result<Vec<String
                     None => "None".to_string(),
                     Some(s) => format!("Some({:?})", s),
                 }),
+                'A' => out.push(format!("{:?}", r.read_lines())),
                 'E' => out.push(format!("{}", r.is_eof())),
                 'S' => out.push(format!("{:?}", r.read::<String>())),
                 'I' => out.push(format!("{}", r.read::<i32>())),
@@ -154,7 +172,7 @@ pub fn run(_seed: u64, replay: Option<String>) -> Outcome {
         return Outcome { cex: check(p[0], &unhex(p[1]), &parse_sched(p[2])), cases: 1 };
     }
     let alpha = [b'\n', b'\r', b'7', b' ', b'-'];
-    let scripts = ["LLLLL", "ELLLL", "LELEL", "SESES", "IEIEI", "CCECC", "EEL", "SLL", "ILL"];
+    let scripts = ["LLLLL", "ELLLL", "LELEL", "SESES", "IEIEI", "CCECC", "EEL", "SLL", "ILL", "A", "LA", "SA"];
     let mut cases = 0u64;
     for len in 0..=4usize {
         let total = alpha.len().pow(len as u32);
